@@ -85,17 +85,30 @@ def gen_scenarios(chk, ids):
 
 def name_tok(n):
     if isinstance(n, dict):
-        return "*%dx%d" % (n["rep"], n["n"])
+        if n["n"] > 0:
+            return "*%dx%d" % (n["rep"], n["n"])
+        n = n["b"]
     return hexs(n)
+
+
+def norm_name(n):
+    """names are uniform records in the trace: short names as bytes, long ones as (byte, count)"""
+    if isinstance(n, dict):
+        return {"b": list(n.get("b", [])), "rep": n["rep"], "n": n["n"]}
+    return {"b": list(n), "rep": 0, "n": 0}
 
 
 def name_of_tok(t):
     if t in ("?",):
-        return "?"
+        return {"b": [], "rep": -1, "n": -1}            # the library returned no name (NULL)
     if t.startswith("*"):
         b, n = t[1:].split("x")
-        return {"rep": int(b), "n": int(n)}
-    return [] if t == "-" else list(bytes.fromhex(t))
+        return {"b": [], "rep": int(b), "n": int(n)}
+    return norm_name([] if t == "-" else list(bytes.fromhex(t)))
+
+
+def norm_cols(cols):
+    return [dict(c, name=norm_name(c["name"])) for c in cols]
 
 
 def write_tokens(scn, path):
@@ -414,7 +427,7 @@ def events_of(cid, scn, toks):
                 nxt()                       # the M token
             continue
         if o == "Create":
-            ev.append(dict(base, e="Create", cols=cols, ok=(val == "ok")))
+            ev.append(dict(base, e="Create", cols=norm_cols(cols), ok=(val == "ok")))
         elif o == "WriteBatch":
             ev.append(dict(base, e="WriteBatch", c=op["c"], n=op["n"], withDefs=op["withDefs"], defs=op["defs"], vals=op["vals"], st=_int(val)))
         elif o == "NewRowGroup":
@@ -515,9 +528,9 @@ def events_of(cid, scn, toks):
         elif o == "SchemaCreate":
             ev.append(dict(base, e="SchemaCreate", ok=(val == "ok")))
         elif o == "AddColumn":
-            ev.append(dict(base, e="AddColumn", name=op["name"], type=op["type"], rep=op["rep"], tlen=op["tlen"], st=_int(val)))
+            ev.append(dict(base, e="AddColumn", name=norm_name(op["name"]), type=op["type"], rep=op["rep"], tlen=op["tlen"], st=_int(val)))
         elif o == "AddGroup":
-            ev.append(dict(base, e="AddGroup", name=op["name"], rep=op["rep"], idx=_int(val)))
+            ev.append(dict(base, e="AddGroup", name=norm_name(op["name"]), rep=op["rep"], idx=_int(val)))
         elif o == "SchemaDump":
             f = val.split(":")
             ne, nl = int(f[0]), int(f[1])
@@ -525,7 +538,7 @@ def events_of(cid, scn, toks):
             for ef in f[2:2 + ne]:
                 p = ef.split(",")
                 if len(p) < 6:
-                    elems.append({"name": "?", "leaf": False, "type": -1, "rep": -1, "tlen": -1})
+                    elems.append({"name": name_of_tok("?"), "leaf": False, "type": -1, "rep": -1, "tlen": -1})
                     continue
                 elems.append({"name": name_of_tok(p[0]), "leaf": p[1] == "1", "type": int(p[2]), "rep": int(p[3]), "tlen": int(p[4])})
             ev.append(dict(base, e="SchemaDump", ne=ne, nl=nl, elems=elems, leaves=[int(x) for x in f[2 + ne:2 + ne + nl]]))
